@@ -312,7 +312,7 @@ func (fr *Frame) panicObl(b *ssa.BasicBlock, idx int, kind string, safe string, 
 		return
 	}
 	check := true
-	if (kind == "nil" || kind == "nilmap") && (fr.fcTop() == nil || !fr.fcTop().CheckNil) {
+	if (kind == "nil" || kind == "nilmap" || kind == "typeassert") && (fr.fcTop() == nil || !fr.fcTop().CheckNil) {
 		check = false
 	}
 	if fr.fcTop() != nil && fr.fcTop().MayPanic && kind == "explicit" {
@@ -323,7 +323,7 @@ func (fr *Frame) panicObl(b *ssa.BasicBlock, idx int, kind string, safe string, 
 		pos := u.P.Fset.Position(ins.Pos())
 		o := u.oblige(name, "panic", fmt.Sprintf("no %s panic at %s:%d (%s)", kind, shortFile(pos.Filename), pos.Line, strings.TrimSpace(ins.String())), implies(reach, safe), nil)
 		_ = o
-	} else if kind == "nil" || kind == "nilmap" {
+	} else if kind == "nil" || kind == "nilmap" || kind == "typeassert" {
 		u.note("nil dereferences are assumed not to happen (memory safety of pointer arguments is a precondition)")
 	}
 	u.assert(implies(reach, safe))
@@ -631,10 +631,11 @@ func (fr *Frame) lookup(b *ssa.BasicBlock, idx int, ins *ssa.Lookup, st *State, 
 			u.assert(eq(vv.S, v))
 			u.assert(eq(okv.S, has))
 		}
+		fr.allocated(vv, st)
 		fr.vals[ins] = &Val{T: ins.Type(), Tuple: []*Val{vv, okv}}
 		return
 	}
-	fr.define(ins, v)
+	fr.allocated(fr.define(ins, v), st)
 }
 
 func (fr *Frame) next(ins *ssa.Next, st *State, reach string) {
@@ -702,6 +703,7 @@ func (fr *Frame) unop(b *ssa.BasicBlock, idx int, ins *ssa.UnOp, st *State, reac
 		v := fr.load(st, pl)
 		res := fr.define(ins, v.S)
 		fr.assumeRange(res)
+		fr.allocated(res, st)
 	case token.SUB:
 		r := rangeOfBasic(ins.Type())
 		if r.ok {
